@@ -496,6 +496,7 @@ c04_c!(c04_cache_fg, 2, [0, 1], true);
 c04_c!(c04_cache_fff, 3, [0, 0, 0], false);
 c04_c!(c04_cache_ffg, 3, [0, 0, 1], true);
 c04_c!(c04_cache_gff, 3, [1, 0, 0], true);
+c04_c!(c04_cache_fgf, 3, [0, 1, 0], true);
 
 /// find_range_by_binary_search returns exactly the maximal run of `Equal`
 /// elements for every comparison table consistent with a sorted slice
@@ -729,11 +730,13 @@ c12_k!(c12_kernel_params_bad_name, NONE, NONE, MID, true, true);
 /// C12: `get_class_members` / `get_class_members_by_params` with arbitrary
 /// offset and length never panic and return a sub-slice of the section (or None).
 #[kani::proof]
-#[kani::unwind(4)]
+#[kani::unwind(5)]
 fn c12_class_member_ranges() {
-    let ms: [Member; 3] = [Member::default(), Member::default(), Member::default()];
+    let ms: [Member; 4] = [Member::default(), Member::default(), Member::default(), Member::default()];
+    // the two sections have independent lengths (a bound taken from the wrong section must show)
     let n: usize = kani::any();
-    kani::assume(n <= 3);
+    let np: usize = kani::any();
+    kani::assume(n <= 4 && np <= 4);
     let class = Class {
         obfuscated_name_offset: 0,
         original_name_offset: 0,
@@ -743,18 +746,19 @@ fn c12_class_member_ranges() {
         members_by_params_offset: kani::any(),
         members_by_params_len: kani::any(),
     };
-    let cache = cache_of(&[], &ms[..n], &ms[..n], &STRINGS);
+    let cache = cache_of(&[], &ms[..n], &ms[..np], &STRINGS);
     if let Some(s) = cache.get_class_members(&class) {
         assert!(s.len() == class.members_len as usize && class.members_offset as usize + s.len() <= n, "C12: member range outside the section");
     } else {
         assert!(class.members_offset as u64 + class.members_len as u64 > n as u64, "C12: valid member range refused");
     }
     if let Some(s) = cache.get_class_members_by_params(&class) {
-        assert!(s.len() == class.members_by_params_len as usize && class.members_by_params_offset as usize + s.len() <= n, "C12: by-params range outside the section");
+        assert!(s.len() == class.members_by_params_len as usize && class.members_by_params_offset as usize + s.len() <= np, "C12: by-params range outside the section");
     } else {
-        assert!(class.members_by_params_offset as u64 + class.members_by_params_len as u64 > n as u64, "C12: valid by-params range refused");
+        assert!(class.members_by_params_offset as u64 + class.members_by_params_len as u64 > np as u64, "C12: valid by-params range refused");
     }
     kani::cover!(class.members_offset == u32::MAX && class.members_len == u32::MAX, "extreme offset and length");
+    kani::cover!(np < n && class.members_by_params_offset as usize + class.members_by_params_len as usize == n, "by-params range that would fit the members section only");
 }
 
 /// C12: `find_range_by_binary_search` with an *arbitrary* (inconsistent, not
@@ -922,3 +926,4 @@ fn c10_lookup_diff() {
     assert!(cache.get_class_members(&class).map(|s| s.len()) == pcache.get_class_members(&pclass).map(|s| s.len()), "C10: member range slicing differs");
     assert!(cache.get_class_members_by_params(&class).map(|s| s.len()) == pcache.get_class_members_by_params(&pclass).map(|s| s.len()), "C10: by-params range slicing differs");
 }
+
